@@ -16,7 +16,7 @@ COMPONENTS = {
 }
 
 ASSUMPTIONS_COMMON = [
-    "instrumentation: os/time/sync/go/chan/select/map-range in marketstore packages are rewritten at build time to simos/simrt (go build -overlay); code between two yield points runs atomically",
+    "instrumentation: os/time/sync/go/chan/select/map-range in marketstore packages are rewritten at build time to simos/simrt (go build -overlay); len(chan) and reads of shared boolean/integer flags are scheduling points too; code between two yield points runs atomically",
     "the seeded generator and schedule tape sample the space; a clean batch is evidence, not proof",
 ]
 
@@ -24,7 +24,8 @@ A_KILL = "process-kill model: every completed write(2)/truncate/rename/unlink su
 A_POWER = "power-loss model: data written after the file's last fsync or the last sync(2) may be dropped or torn at 512-byte sectors; namespace operations (create/mkdir/rename/unlink) are durable at once (A-meta)"
 
 CRASH_RULE = ("histories generated from the seed (1-4 buckets, fixed+variable, 3 years, repeated intervals, multi-request writes, "
-              "sleeps letting checkpoints/WAL truncation happen, graceful restarts, 1-3 crash lifetimes); for each lifetime EVERY prefix of the "
+              "sleeps letting checkpoints/WAL truncation happen, graceful restarts, 1-3 crash lifetimes; 25%: a forced WAL rotation in the middle of the history; "
+              "20%: a bucket destroyed and re-created under the same key with another schema in the last lifetime; 60%: small read chunks (recordsPerRead knob)); for each lifetime EVERY prefix of the "
               "file-mutating operation log is turned into a disk image and the real startup recovery is run on it; "
               "distinct_nontrivial = distinct image content hashes on which recovery had to write to a primary file (replay had work)")
 
